@@ -407,6 +407,10 @@ impl BuilderArea {
                         for op in ops {
                             match *op {
                                 "next" => out.push(("next".into(), it.next().map(|x| x.to_el()), None)),
+                                op if op.starts_with("nth") => {
+                                    let k: usize = op[3..].parse().unwrap_or(0);
+                                    out.push((op.to_string(), it.nth(k).map(|x| x.to_el()), None))
+                                }
                                 "len" => out.push((it.len().to_string(), None, Some((it.len(), it.clone().map(|_| 1).sum())))),
                                 "size_hint" => {
                                     let (lo, hi) = it.size_hint();
@@ -427,6 +431,10 @@ impl BuilderArea {
                         for op in ops {
                             match *op {
                                 "next" => out.push(("next".into(), it.next().map(|x| x.to_el()), None)),
+                                op if op.starts_with("nth") => {
+                                    let k: usize = op[3..].parse().unwrap_or(0);
+                                    out.push((op.to_string(), it.nth(k).map(|x| x.to_el()), None))
+                                }
                                 "len" => out.push((it.len().to_string(), None, Some((it.len(), it.clone().map(|_| 1).sum())))),
                                 "size_hint" => {
                                     let (lo, hi) = it.size_hint();
@@ -456,22 +464,27 @@ impl BuilderArea {
                             (Some(x), Some(a)) => Some(a.kids(x, !nodes)),
                             _ => None,
                         };
+                        let mut consumed = 0usize;
                         for (s, el, size) in v {
-                            if s == "next" {
+                            if s == "next" || s.starts_with("nth") {
+                                // `nth(k)` skips k items and yields the next one
+                                let skip: usize = if s == "next" { 0 } else { s[3..].parse().unwrap_or(0) };
                                 match el {
                                     Some(el) => {
-                                        let wi = kids.as_ref().and_then(|k| k.get(items.len()).cloned());
+                                        let wi = kids.as_ref().and_then(|k| k.get(consumed + skip).cloned());
                                         if kids.is_some() && wi.is_none() {
                                             cx.fail("C03", format!("child iterator of e{} yields more items than the node has", id));
                                         }
                                         out.push(self.show_el(t, &el, wi, cx, "child iterator"));
                                         items.push(el);
+                                        consumed += skip + 1;
                                     }
                                     None => {
                                         if let Some(k) = &kids {
-                                            if items.len() < k.len() {
-                                                cx.fail("C03", format!("child iterator of e{} ended after {} of {} items", id, items.len(), k.len()));
+                                            if consumed + skip < k.len() {
+                                                cx.fail("C03", format!("child iterator of e{} ended after {} of {} items", id, consumed + skip, k.len()));
                                             }
+                                            consumed = k.len();
                                         }
                                         out.push("none".into())
                                     }
